@@ -43,6 +43,8 @@ def rtVal (tag : Nat) : Val := .struct [(1, .int tag), (2, .bytes (rtBlob tag))]
 inductive RtOp where
   | pub (m : Published)
   | barrier | wait | unsub (k : Nat)
+  | resub (k : Nat)     -- a new transport from the same provider takes the place of subscription k
+  | noop                -- X: refused by the publisher (above the size limit), nothing reaches the broker
 
 def rtPacket (opName : String) (tag : Nat) (truncate : Bool) : Packet :=
   let es : List Event := if truncate then [.sb "Payload", .fb "tag" 10 1] else
@@ -64,6 +66,16 @@ def parseRtOp (s : String) : Option RtOp :=
   | ['W'] => some .wait
   | ['U'] => some (.unsub 0)
   | 'U' :: r => (String.ofList r).toNat?.map .unsub
+  | ['S'] => some (.resub 0)
+  | 'S' :: r => (String.ofList r).toNat?.map .resub
+  | 'X' :: r => do
+    let (b, _) ← splitTopic r
+    let _ ← b.toNat?
+    pure .noop
+  | 'H' :: r => do      -- valid message; the handler returns an error after it was invoked
+    let (b, t) ← splitTopic r
+    let n ← b.toNat?
+    pure (.pub ⟨rtTopicOf t, rtPacket "Evt" n false⟩)
   | 'V' :: r => do
     let (b, t) ← splitTopic r
     let n ← b.toNat?
@@ -82,6 +94,15 @@ def parseRtOp (s : String) : Option RtOp :=
     let bytes ← unhex b
     pure (.pub ⟨rtTopicOf t, ⟨bytes, .garbage⟩⟩)
   | _ => none
+
+/-- Tags of the `H` operations: delivered like any valid message, and the callback reports the handler's error. -/
+def hTagsOf (s : String) : List Nat :=
+  (s.splitOn ",").filterMap fun p => match p.toList with
+    | 'H' :: r => (splitTopic r).bind fun (b, _) => b.toNat?
+    | _ => none
+
+/-- A fresh subscription (new transport, same handler): the model instance starts again, the handler's log goes on. -/
+def resubSt (s : St) : St := { St.init with w := s.w, accepted := s.accepted }
 
 def parseRtOps (s : String) : Option (List RtOp) :=
   if s == "." then some [] else (s.splitOn ",").mapM parseRtOp
@@ -116,6 +137,8 @@ def rtRun (ops : List RtOp) : St × Bool :=
     | .pub m => ((step rtCfg rtTopic s (.publish m)).getD s, u)
     | .barrier => (drain rtCfg rtTopic (s.queue.length + 1) s, u)
     | .wait => (s, u)
+    | .noop => (s, u)
+    | .resub k => if k ≠ 0 then (s, u) else (resubSt s, false)
     | .unsub k =>
       if k ≠ 0 then (s, u) else
       let s1 := (step rtCfg rtTopic s .unsubscribe).getD s
@@ -132,14 +155,17 @@ def rtRunMulti (topics : List Nat) (ops : List RtOp) : List (St × Bool) :=
     | .pub m => stepAll (fun _ t (s, u) => ((step rtCfg t s (.publish m)).getD s, u)) acc
     | .barrier => stepAll (fun _ t (s, u) => (drain rtCfg t (s.queue.length + 1) s, u)) acc
     | .wait => acc
+    | .noop => acc
+    | .resub k => stepAll (fun i _ (s, u) => if i ≠ k then (s, u) else (resubSt s, false)) acc
     | .unsub k => stepAll (fun i t (s, u) =>
         if i ≠ k then (s, u) else
         let s1 := (step rtCfg t s .unsubscribe).getD s
         ((step rtCfg t s1 .abandon).getD s1, true)) acc) (topics.map fun _ => (St.init, false))
 
-def subLineStr (wn : Nat) (s : St) (u : Bool) : String :=
+def subLineStr (wn : Nat) (hs : List Nat) (s : St) (u : Bool) : String :=
   let tags := if wn ≤ 1 then s.w.log.map tagOf else sortNats (s.w.log.map tagOf)
-  s!"unsub={if u then "ok" else "none"} delivered={tagsStr tags} cb={s.w.cbs} err={s.w.errs}"
+  let herr := ((s.w.log.map tagOf).filter (hs.contains ·)).length
+  s!"unsub={if u then "ok" else "none"} delivered={tagsStr tags} cb={s.w.cbs} err={s.w.errs + herr}"
 
 /-- Racing execution up to the first Unsubscribe: (delivered for sure, deliveries owed for what is in flight). -/
 def rtRace : List RtOp → St → (List Nat × List Nat)
@@ -149,6 +175,8 @@ def rtRace : List RtOp → St → (List Nat × List Nat)
   | .pub m :: r, s => rtRace r ((step rtCfg rtTopic s (.publish m)).getD s)
   | .barrier :: r, s => rtRace r (drain rtCfg rtTopic (s.queue.length + 1) s)
   | .wait :: r, s => rtRace r s
+  | .noop :: r, s => rtRace r s
+  | .resub _ :: r, s => rtRace r (resubSt s)
   | .unsub _ :: _, s => (s.w.log.map tagOf, (s.queue.filterMap (deliver rtCfg)).map tagOf)
 
 def isSublist : List Nat → List Nat → Bool
@@ -307,14 +335,14 @@ def stepPubSub (op : String) (args : List String) : Option String :=
     let (s0, u) := rtRun ops
     let s := drain rtCfg rtTopic (s0.queue.length + 1) s0
     let wn ← w.toNat?
-    pure (subLineStr wn s u)
+    pure (subLineStr wn (hTagsOf opsS) s u)
   | "pm", [_, w, _, subsS, opsS] => do
     let ops ← parseRtOps opsS
     let topics ← (subsS.splitOn ",").mapM (·.toNat?)
     let wn ← w.toNat?
     let fin := (rtRunMulti topics ops).zip topics
     let parts := fin.map fun ((s0, u), t) =>
-      subLineStr wn (drain rtCfg (rtTopicOf t) (s0.queue.length + 1) s0) u
+      subLineStr wn (hTagsOf opsS) (drain rtCfg (rtTopicOf t) (s0.queue.length + 1) s0) u
     pure s!"k={parts.length} {" / ".intercalate parts}"
   | "psr", [_, w, _, obsS, opsS] => do
     let ops ← parseRtOps opsS
